@@ -13,7 +13,7 @@ META = dict(
         'memWipe/memFree/memAlloc replaced by the ghost monitor harness/C15/wipe_model.c (pattern 0xA5, coverage table, arbitrary octet index at free)',
         'belt block cipher, bash-f, beltPolyMul uninterpreted (outputs arbitrary), beltPolyMul stub overwrites its whole stack area with arbitrary values',
         'REL profile (NDEBUG), blob.c real with exact-size blobs (BEE2_VERIF_BLOB_EXACT), memIsDisjoint2 object-aware (harness/C15/disjoint_model.c)',
-        'a counterexample of the monitor cannot be replayed natively (the monitor needs object sizes): it would be reported UNCONFIRMED and must be inspected by hand',
+        'native replay links a native twin of the monitor (allocation table instead of CBMC object sizes) with the REAL kernels',
     ],
 )
 MEM = ('src/core/mem.c', {'remove': ['memWipe', 'memFree', 'memAlloc', 'memIsDisjoint2']})
@@ -29,7 +29,7 @@ FS = ['--max-field-sensitivity-array-size', '2048']   # botp/brng states are 700
 
 def wipe(name, which, tuples, srcs, stub_files, funcs, stubs, timeout=240, **kw):
     inst = [('w_%d_%d_%d' % t, '%s, %d, %d, %d' % ((which,) + t)) for t in tuples]
-    d = dict(name='c15_wipe_' + name, harness='harness/C15/wipe.c', instances=inst, srcs=srcs, stub_files=stub_files + MON, blob_exact=True,
+    d = dict(name='c15_wipe_' + name, harness='harness/C15/wipe.c', instances=inst, srcs=srcs, stub_files=stub_files + MON, blob_exact=True, replay='stub', native_stub_files=['harness/C15/wipe_model.c'],
              unwind=70, unwind_rules=[(r'^(belt|bash|brng|botp)\w+Step\w*\.\d+$', 8), (r'^memFree\.', 10), (r'^brngBlockInc\.', 5)], timeout=timeout, mem_gb=6, cbmc_extra=FS,
              funcs=funcs, stubs=stubs + ['wipe_model (memWipe/memFree/memAlloc ghost monitor)'],
              bound='concrete (data length, second length, key length) tuples %s; key/password, data, iv, mac/header/otp symbolic' % (tuples,))
